@@ -83,7 +83,13 @@ def slot_text(kind, plain, key, indent):
 
 def build(skel, kinds, key):
     """-> (yaml text, [(position description, kind, plaintext)])"""
-    plains = ["alpha one", "bravo2", "charlie three", "delta"]
+    # secrets carry line ends of every flavour in the middle of the text;
+    # plain slots get the one-line spelling
+    secret_plains = ["alpha one", "bravo2\r\nsecond line\nthird",
+                     "charlie three", "delta\rx"]
+    simple = ["alpha one", "bravo2", "charlie three", "delta"]
+    plains = [secret_plains[i] if is_secret_kind(kinds[i]) else simple[i]
+              for i in range(len(kinds))]
     slots = []
     lines = []
     if skel == "hash2":
